@@ -313,6 +313,9 @@ def random_case(rng):
         inp = {'s': s, 'ops_len_delta': rng.randint(0, 2)}
         for i in range(len(s) + 1):
             inp['op%d' % i] = rng.randint(0, 2)
+        if inp['ops_len_delta'] != 1:      # vectors of mismatching length are uniform (as in run())
+            for i in range(len(s) + 1):
+                inp['op%d' % i] = inp['op0']
         return ({'mode': 'rep', 'g': False, 'widths': widths_of(s)}, inp)
     a = rand_string(rng, 4, [0x20, 0x20, 0x61, 0x62, 0x09, 0x3000])
     b = rand_string(rng, 4, [0x20, 0x20, 0x61, 0x62, 0x09, 0x3000])
